@@ -4,6 +4,7 @@ import (
 	"fmt"
 	"go/token"
 	"go/types"
+	"regexp"
 	"strings"
 
 	"golang.org/x/tools/go/ssa"
@@ -97,6 +98,7 @@ func mustPassBlock(b *ssa.BasicBlock, pred func(ssa.Instruction) bool) bool {
 
 func runC13(c *Ctx) {
 	r := c.R
+	defer checkARPProbeClass(c)
 	r.Explanation = "Confinement of forged ARP packets, decided on the CFG of the ARP handler. Every send call inside ProcessPacket and spoofLoop is classified by the provenance of its sender address: " +
 		"truthful (router pair restored, host pair) or forged (host MAC with an IP taken from the packet or the router). A forged periodic announcement must be dominated by a positive hunt-list lookup in the same iteration " +
 		"(made with arpMutex held) and be addressed to the MAC returned by that lookup; a forged reply must be dominated either by (hunt-list membership of the requester's MAC and target == router IP) with the requester's MAC as destination, " +
@@ -519,4 +521,58 @@ func runC13(c *Ctx) {
 			Basis: "insert key = delete key = " + ins, Detail: fmt.Sprintf("StartHunt inserts under %q but StopHunt deletes %q: a target whose other attributes changed since StartHunt is never removed and its spoof loop never ends", ins, del)})
 	}
 
+}
+
+// checkARPProbeClass: "probe" is what RFC 5227 says it is - a request whose sender address is 0.0.0.0. In the ARP
+// handler's ProcessPacket the operation variable takes the value `probe` only on paths where SrcIP() == IPv4zero holds
+// (a request with a zeroed target hardware address is an ordinary request: classified as a probe it draws a forged
+// probe-reject reply to a station that is not hunted).
+func checkARPProbeClass(c *Ctx) {
+	c.R.Rule("probe-class", "an ARP frame is classified as a probe only when its sender address is 0.0.0.0", 1)
+	fn := c.P.Method("handlers/arp_spoofer", "Handler", "ProcessPacket")
+	if fn == nil {
+		c.R.Add(core.Obligation{Rule: "probe-class", Key: "probe-class ProcessPacket", Status: core.Undecided, Detail: "function not found"})
+		return
+	}
+	n := 0
+	core.EachInstr(fn, func(i ssa.Instruction) {
+		ph, ok := i.(*ssa.Phi)
+		if !ok || ph.Comment != "operation" {
+			return
+		}
+		for k, e := range ph.Edges {
+			cst, isC := e.(*ssa.Const)
+			if !isC || cst.Value == nil || cst.Value.String() != "4" { // probe = iota 4
+				continue
+			}
+			n++
+			pred := ph.Block().Preds[k]
+			dnf := pathDNF(pred)
+			if len(pred.Preds) <= 1 && len(pred.Instrs) > 0 {
+				dnf = []string{guardTexts(guardsOf(pred.Instrs[len(pred.Instrs)-1]))}
+			}
+			var bad []string
+			for _, d := range dnf {
+				okPath := false
+				for _, t := range strings.Split(d, " && ") {
+					if regexp.MustCompile(`^\(\(packet\.ARP\)\.SrcIP\(.*\)==IPv4zero\)$`).MatchString(t) {
+						okPath = true
+					}
+				}
+				if !okPath {
+					bad = append(bad, d)
+				}
+			}
+			st, det := core.Proved, ""
+			if len(bad) > 0 || len(dnf) == 0 {
+				st = core.Violated
+				det = "ProcessPacket also classifies a frame as a probe when " + strings.Join(bad, "  |  ") + ": an ordinary request then takes the probe-reject branch, and a station that is not hunted and was not probing is sent a forged reply"
+			}
+			c.R.Add(core.Obligation{Rule: "probe-class", Key: "probe-class ProcessPacket", Func: core.FuncName(fn), Pos: c.P.Pos(core.PosOf(pred.Instrs[len(pred.Instrs)-1])), Status: st,
+				Basis: "operation = probe only under SrcIP() == IPv4zero", Detail: det})
+		}
+	})
+	if n == 0 {
+		c.R.Add(core.Obligation{Rule: "probe-class", Key: "probe-class ProcessPacket", Func: core.FuncName(fn), Status: core.Undecided, Detail: "the assignment operation = probe was not found"})
+	}
 }
